@@ -367,6 +367,21 @@ def check_observable(p):
             if not mags or not (0.1 * f - 1e-12 <= float(mags[0]) <= 0.9 * f + 1e-12):
                 p.violation("C15:sampled_magnitude_outside_scaled_range|KDAdditiveGaussianNoise|", dict(observable=True, f=f),
                             f"factor {f}, generator answer #{zi}: recorded magnitude {mags}, scaled range [{0.1 * f}, {0.9 * f}]")
+        # a scaled apply probability must be the probability in effect: applied iff the unit draw falls below p * factor
+        for p0 in (1.0, 0.5, 0.2):
+            eff = p0 * f
+            for u in sorted({0.0, max(0.0, eff - 1e-6), min(1.0 - 1e-9, eff + 1e-6), 1.0 - 1e-9}):
+                gs = cat.leaf_class("KDRandomGrayscale")(p=p0)
+                gs.scale_strength(f)
+                gs.set_rng(ChoiceRng(Chooser(()), unit=(u,)))
+                img = torch.stack([torch.full((4, 4), 0.9), torch.full((4, 4), 0.1), torch.full((4, 4), 0.5)])
+                out = gs(img.clone(), ctx={})
+                applied = not torch.equal(out, img)
+                p.evaluations += 1
+                if applied != (u < eff):
+                    p.violation(f"C15:apply_probability_not_scaled|KDRandomGrayscale|p={'1' if p0 == 1.0 else '<1'}", dict(observable=True, f=f),
+                                f"KDRandomGrayscale(p={p0}) at factor {f} (probability in effect {eff}): unit draw {u} -> "
+                                f"{'applied' if applied else 'not applied'}")
         so = cat.leaf_class("KDSolarize")(threshold=0.25)
         so.scale_strength(f)
         ctx = {}
